@@ -139,7 +139,7 @@ func (fr *Frame) variadicArgs(st *State, v ssa.Value, val Val) ([]Term, bool) {
 	inner := sel(A, app("Int", "sl_arr", s))
 	var out []Term
 	for i := int64(0); i < n; i++ {
-		out = append(out, sel(inner, app("Int", "+", app("Int", "sl_off", s), intLit(i))))
+		out = append(out, sel(inner, app("Int", "sl_ix", app("Int", "sl_off", s), intLit(i))))
 	}
 	return out, true
 }
